@@ -36,11 +36,13 @@ def std_modes(forms=None, compose=True, square=False):
 _MODES_CACHE = {}
 
 
-def make_operand(kind, m, n, idx, seed, dtype="f8"):
+def make_operand(kind, m, n, idx, seed, dtype="f8", scale=1.0):
+    """scale=0.5: half-integer entries (still exact in binary floating point, but not representable in an integer
+    dtype -- used with integer/float32 *arguments*, where a result buffer of the argument's dtype would round)"""
     import scipy.sparse as sp
     from scipy.sparse.linalg import aslinearoperator
     from pyiga import operators as O
-    M = R.payload(m, n, idx, seed)
+    M = R.payload(m, n, idx, seed) * scale
     Mt = M.astype(np.dtype(dtype))
     if kind == "d":
         return Mt.copy(), M
@@ -117,6 +119,10 @@ def form_calls(Q, E, form, seed, base=None):
         x = R.xvec(N, seed)
         yield "@ x(n,)", (lambda: Q @ x), E @ x
         yield "matvec(x(n,))", (lambda: Q.matvec(x)), E @ x
+        # other real dtypes of the argument (integer payload: exactly representable, so the result is exact too)
+        for dt in (np.int64, np.float32, np.int32):
+            xd = x.astype(dt)
+            yield "@ x(n,) dtype=%s" % np.dtype(dt).name, (lambda xd=xd: Q @ xd), E @ x
     elif form == "p":
         x = R.xvec(N, seed)
         yield "dot(x(n,))", (lambda: Q.dot(x)), E @ x
@@ -135,6 +141,17 @@ def form_calls(Q, E, form, seed, base=None):
         X = conv(R.xmat(N, k, seed))
         yield "@ X(n,%d) %s-ordered" % (k, form[2]), (lambda: Q @ X), E @ X
         yield "matmat(X(n,%d) %s-ordered)" % (k, form[2]), (lambda: Q.matmat(X)), E @ X
+        for dt in (np.int64, np.float32):
+            Xd = conv(X.astype(dt))
+            yield "@ X(n,%d) %s-ordered dtype=%s" % (k, form[2], np.dtype(dt).name), (lambda Xd=Xd: Q @ Xd), E @ X
+    elif form == "d":       # argument dtypes only (used with half-integer operands)
+        x = R.xvec(N, seed)
+        X = R.xmat(N, 2, seed)
+        for dt in (np.int64, np.float32, np.int32):
+            xd = x.astype(dt)
+            yield "dot(x(n,) dtype=%s)" % np.dtype(dt).name, (lambda xd=xd: Q.dot(xd)), E @ x
+            Xd = X.astype(dt)
+            yield "dot(X(n,2) dtype=%s)" % np.dtype(dt).name, (lambda Xd=Xd: Q.dot(Xd)), E @ X
     elif form == "I":
         yield "dot(eye(n))", (lambda: Q.dot(I)), E
         yield "dot(eye(n) F-ordered)", (lambda: Q.dot(np.asfortranarray(I))), E
@@ -275,6 +292,17 @@ def kron_problems(case):
     except Exception as e:
         return [("kron:construct:exception:%s" % _excname(e), "KroneckerOperator(...) raised %r" % (e,), None, None)], {}
     probs, n = linop_problems("kron", op, D, case["modes"], seed, tag=branch)
+    if not probs and len(objs) >= 2 and not case.get("dtypes") and any(m[0] == "A" for m in case["modes"]):
+        # the same factors with half-integer entries, applied to integer / float32 arguments
+        try:
+            pairs2 = [make_operand(k, m, n_, i, seed, scale=0.5) for i, (m, n_, k) in enumerate(case["factors"])]
+            op2 = O.KroneckerOperator(*[p[0] for p in pairs2])
+            D2 = R.kron_all([p[1] for p in pairs2])
+            probs2, n2 = linop_problems("kron", op2, D2, [["A", ["d"]], ["T", ["d"]]], seed, tag=branch + ":argdtype")
+            probs += probs2
+            n += n2
+        except Exception as e:
+            probs.append(("kron:argdtype:exception:%s" % _excname(e), "half-integer operands raised %r" % (e,), "A", "d"))
     probs = attribute_nested(probs, [(f[2], o) for f, o in zip(case["factors"], objs)])
     return probs, {"calls": n, "nontrivial": nontrivial_matrix(D) and len(objs) >= 2, "digest": digest(D),
                    "branch": branch}
